@@ -40,6 +40,25 @@ let scenario (udp : bool) (maxq : int) (ops : string list) : string =
   let rec exec (queued : (coutcome * soutcome) list ref option) (op : string) : unit =
     let p = split_on ':' op in
     match p with
+    | ["c"; ("tlsok" | "tlsbad" | "tlshang" as kind)] ->
+      (* TLS connect: TCP completes, the session stays pending until the handshake ends *)
+      let sid = next_id () in
+      let ok = open_queue () in
+      e (ApiConnect true);
+      results := (if ok then "ok" ^ string_of_int sid else "err") :: !results;
+      if ok then begin
+        e (IoCmd (CoPending, SoOk));
+        (match kind with
+         | "tlsok" -> e (IoHandshake (n_of_int sid))
+         | "tlsbad" -> e (IoFail (n_of_int sid))
+         | _ -> ())
+      end
+    | ["a"; kind] ->
+      if not (drained ()) && not udp then begin
+        let sid = next_id () in
+        e (IoAccept true);
+        (match kind with "tls" -> e (IoHandshake (n_of_int sid)) | _ -> e (IoFail (n_of_int sid)))
+      end
     | ["c"; kind] ->
       let (ok, sid) = api_connect () in
       (match queued with
